@@ -12,7 +12,7 @@ TEXT = {
          "kernel-checked probability proof over a free monad + differential execution on complete cells"),
  "C03": ("§8 C03", "Lean theorems for every recipe (flag words universally quantified) and every random stream (Rand.All): length, single-character atom tokens, membership in allowed-or-required minus excluded, every non-empty required set hit; Alphabet() strictly increasing with the exact membership law. Tie: charinfo/chargen on the real code.",
          "kernel-checked safety proof over all streams + differential execution"),
- "C04": ("§8 C04", "Lean theorems: the word, capitalisation and separator choices of WLRecipe.Generate are independent draws with the stated marginals (product law), 'one' uniform over positions, 'random' uniform over subsets. Tie: wlgen operations incl. complete cells on the real code.",
+ "C04": ("§8 C04", "Lean theorems: the word, capitalisation and separator choices of WLRecipe.Generate are independent draws with the stated marginals (product law), 'one' uniform over positions, 'random' uniform over subsets; explicit marginals for every separator setting and list: each position's word uniform (word_marginal), pairs of positions independent, each separator a fresh draw from its function. Tie: wlgen operations incl. complete cells on the real code; statistical marginal checks as failing-input search.",
          "kernel-checked product-law proof + differential execution on complete cells"),
  "C05": ("§8 C05", "Lean theorems on every stream: atoms are list words or their title form exactly at the scheme's positions, separators exactly between atoms when non-empty, String/Atoms/Separators laws; hypothesis 'no empty word' forced by the proof, with the counterexample (known finding D8). Tie: wlgen on the real code with structure checks.",
          "kernel-checked structural proof + differential execution"),
